@@ -504,6 +504,17 @@ class IntervalTier(textgrid_tier.TextgridTier):
             interval.start, interval.end, CropCollision.LAX, False
         )._entries
 
+        # Report (and possibly raise) before anything is modified
+        if (
+            len(matchList) != 0
+            and collisionMode != constants.IntervalCollision.ERROR
+        ):
+            collisionReporter(
+                errors.CollisionError,
+                f"Collision warning for ({interval}) with items "
+                f"({matchList}) of tier '{self.name}'",
+            )
+
         if len(matchList) == 0:
             self._entries.append(interval)
 
@@ -541,13 +552,6 @@ class IntervalTier(textgrid_tier.TextgridTier):
 
         if self._entries[-1][1] > self.maxTimestamp:
             self.maxTimestamp = self._entries[-1][1]
-
-        if len(matchList) != 0:
-            collisionReporter(
-                errors.CollisionError,
-                f"Collision warning for ({interval}) with items "
-                f"({matchList}) of tier '{self.name}'",
-            )
 
     def insertSpace(
         self,
